@@ -33,6 +33,9 @@ func init() {
 		"verifIte":         vIte,
 		"verifYield":       stubYield,
 		"verifMaxAlloc":    vMaxAlloc,
+		"verifAnd":         func(it *Interp, fr *frame, fn *ssa.Function, a []Value, site ssa.Instruction) Value { return it.tt.BAnd(a[0].(*Term), a[1].(*Term)) },
+		"verifOr":          func(it *Interp, fr *frame, fn *ssa.Function, a []Value, site ssa.Instruction) Value { return it.tt.BOr(a[0].(*Term), a[1].(*Term)) },
+		"verifImplies":     func(it *Interp, fr *frame, fn *ssa.Function, a []Value, site ssa.Instruction) Value { return it.tt.BOr(it.tt.BNot(a[0].(*Term)), a[1].(*Term)) },
 	}
 }
 
@@ -119,7 +122,11 @@ func vAssert(it *Interp, fr *frame, fn *ssa.Function, args []Value, site ssa.Ins
 	}
 	c := args[0].(*Term)
 	if it.ex.branch(it.tt.BNot(c), false) {
+		n0 := len(it.ex.Violations)
 		it.ex.report("assert", it.site(site), label)
+		if len(it.ex.Violations) > n0 {
+			it.ex.Violations[n0].Key = "assert|" + label
+		}
 		panic(abortRun{"assertion failed"})
 	}
 	return nil
@@ -254,7 +261,9 @@ func vChoose(it *Interp, fr *frame, fn *ssa.Function, args []Value, site ssa.Ins
 	if !n.IsConst() {
 		it.unsupported("verifChoose: symbolic n")
 	}
-	return it.tt.Const(64, uint64(it.ex.choose(int(n.k))))
+	c := it.ex.choose(int(n.k))
+	it.ex.UserChoices = append(it.ex.UserChoices, c)
+	return it.tt.Const(64, uint64(c))
 }
 
 func vConcretize(it *Interp, fr *frame, fn *ssa.Function, args []Value, site ssa.Instruction) Value {
